@@ -19,6 +19,10 @@ import (
 //	                parseDebugFrame (= the consume* functions); out-of-range encodings
 //	                must be refused; every single-byte corruption and truncation of every
 //	                valid encoding must parse without panic within the input.
+//	part "ackranges" ACK frames from range sets of up to 321 (thorough: every count up
+//	                to 330) ranges, around every boundary of the one-byte ACK Range
+//	                Count the writer reserves, x every amount of packet space: whatever
+//	                the writer emits parses back completely to ranges of the set.
 //	part "bytes"    every byte string up to length 2 (thorough 3) into every parser.
 //	parts "packets", "tparams": see c28_packets_test.go.
 
@@ -483,6 +487,200 @@ func c28GenFrames(c *vx.Ctx, yield func(c28F) bool) {
 	}
 }
 
+// ---- ACK frames with many ranges (the one-byte ACK Range Count)
+
+// c28AckN is one case of part "ackranges": an ACK frame for a range set of N
+// disjoint ranges of a given shape, written into Avail bytes of packet space
+// (Avail < 0: the untouched 1-RTT packet of a 1200-byte datagram).
+type c28AckN struct {
+	N     int `json:"ranges"`
+	Shape int `json:"shape"`
+	Ecn   int `json:"ecn"`
+	Avail int `json:"avail"`
+}
+
+type c28AckShape struct {
+	name   string
+	base   int64
+	widths []int64 // numbers in range i (cyclic)
+	holes  []int64 // missing numbers above range i (cyclic)
+	delay  uint64
+}
+
+// one- and multi-byte varints in every per-range field, and all-zero fields
+var c28AckShapes = []c28AckShape{
+	{"gap field 0, length field 0", 0, []int64{1}, []int64{1}, 0},
+	{"gap field 1, length field 1", 0, []int64{2}, []int64{2}, 10},
+	{"2-byte gap fields", 61, []int64{1}, []int64{65}, 64},
+	{"2-byte length fields", 16380, []int64{70}, []int64{1}, 16384},
+	{"mixed 1/2/4-byte fields", 3, []int64{1, 70, 2, 1}, []int64{1, 65, 2, 16385}, 1 << 30},
+}
+
+func c28AckShapeRanges(sh c28AckShape, n int) rangeset[packetNumber] {
+	out := make(rangeset[packetNumber], 0, n)
+	pos := sh.base
+	for i := 0; i < n; i++ {
+		w := sh.widths[i%len(sh.widths)]
+		out = append(out, i64range[packetNumber]{packetNumber(pos), packetNumber(pos + w)})
+		pos += w + sh.holes[i%len(sh.holes)]
+	}
+	return out
+}
+
+func c28AckEcn(k int) ecnCounts {
+	switch k {
+	case 1:
+		return ecnCounts{t0: 1, t1: 0, ce: 2}
+	case 2:
+		return ecnCounts{t0: 1<<62 - 1, t1: 16384, ce: 64}
+	}
+	return ecnCounts{}
+}
+
+// c28AckFullLen is the length of the RFC 9000 §19.3 encoding of all n ranges
+// (independent encoder).
+func c28AckFullLen(rs rangeset[packetNumber], delay uint64, ecn ecnCounts) int {
+	top := rs[len(rs)-1]
+	b := c28V(c28V(c28V(c28V([]byte{0x02}, uint64(top.end-1)), delay), uint64(len(rs)-1)), uint64(top.end-top.start-1))
+	for i := len(rs) - 2; i >= 0; i-- {
+		b = c28V(c28V(b, uint64(rs[i+1].start-rs[i].end-1)), uint64(rs[i].end-rs[i].start-1))
+	}
+	if (ecn != ecnCounts{}) {
+		b = c28V(c28V(c28V(b, uint64(ecn.t0)), uint64(ecn.t1)), uint64(ecn.ce))
+	}
+	return len(b)
+}
+
+// c28AckRoom is the payload space of the untouched 1-RTT packet c28Write uses.
+func c28AckRoom() int {
+	var w packetWriter
+	w.reset(1200)
+	w.start1RTTPacket(0, 0, nil)
+	return w.avail()
+}
+
+func c28GenAckN(c *vx.Ctx, yield func(c28AckN) bool) {
+	// range counts: small ones, both sides of every count the one-byte ACK Range
+	// Count can hold (62, 63, 64 additional ranges = 63, 64, 65 ranges), of the
+	// 1->2-byte varint step, and of the wrap of a byte counter (256 additional).
+	ns := []int{1, 2, 3, 8, 32, 61, 62, 63, 64, 65, 66, 67, 100, 127, 128, 129, 130, 200, 255, 256, 257, 258, 300, 319, 320, 321}
+	if !c.Quick() {
+		ns = ns[:0]
+		for n := 1; n <= 330; n++ {
+			ns = append(ns, n)
+		}
+	}
+	availCap := vx.Pick(c, 300, 1<<30)
+	room := c28AckRoom()
+	for _, n := range ns {
+		for si, sh := range c28AckShapes {
+			rs := c28AckShapeRanges(sh, n)
+			for ecn := 0; ecn < 3; ecn++ {
+				if c.Quick() && ecn == 1 {
+					continue
+				}
+				if !yield(c28AckN{N: n, Shape: si, Ecn: ecn, Avail: -1}) {
+					return
+				}
+				hi := min(c28AckFullLen(rs, sh.delay, c28AckEcn(ecn))+2, availCap, room)
+				for a := 0; a <= hi; a++ {
+					if !yield(c28AckN{N: n, Shape: si, Ecn: ecn, Avail: a}) {
+						return
+					}
+				}
+			}
+		}
+	}
+}
+
+func c28CheckAckN(w *vx.W, x c28AckN) {
+	const id = "C28/ackranges/"
+	sh := c28AckShapes[x.Shape]
+	seen := c28AckShapeRanges(sh, x.N)
+	ecn := c28AckEcn(x.Ecn)
+	var pw packetWriter
+	pw.reset(1200)
+	pw.start1RTTPacket(0, 0, nil)
+	if x.Avail >= 0 {
+		pw.pktLim = pw.payOff + x.Avail
+	}
+	room := pw.avail()
+	before, sentBefore := len(pw.b), len(pw.sent.b)
+	added := pw.appendAckFrame(seen, unscaledAckDelay(sh.delay), ecn)
+	if !added {
+		if len(pw.b) != before || len(pw.sent.b) != sentBefore {
+			w.Failf(id+"refused-but-wrote", "%+v (%s): appendAckFrame returned false but the packet grew by %d bytes (sent record by %d)", x, sh.name, len(pw.b)-before, len(pw.sent.b)-sentBefore)
+			return
+		}
+		w.Outcome("ack frame refused for lack of room")
+		return
+	}
+	frame := c28Exact(pw.b[before:])
+	if len(frame) > room {
+		w.Failf(id+"exceeds-available-space", "%+v (%s): frame of %d bytes written with %d available", x, sh.name, len(frame), room)
+		return
+	}
+	// the primary parser: must consume exactly the bytes written
+	var got []i64range[packetNumber] // highest first
+	orderOK := true
+	largest, delay, gotEcn, n := consumeAckFrame(frame, func(idx int, s, e packetNumber) {
+		orderOK = orderOK && idx == len(got)
+		got = append(got, i64range[packetNumber]{s, e})
+	})
+	if n != len(frame) || !orderOK || len(got) == 0 {
+		w.Failf(id+"does-not-parse-back", "%+v (%s): wrote %d bytes %x, consumeAckFrame consumed %d and reported %d ranges", x, sh.name, len(frame), frame, n, len(got))
+		return
+	}
+	if delay != unscaledAckDelay(sh.delay) || gotEcn != ecn {
+		w.Failf(id+"delay-or-ecn-changed", "%+v (%s): parsed delay=%d ecn=%v, written delay=%d ecn=%v; frame %x", x, sh.name, delay, gotEcn, sh.delay, ecn, frame)
+		return
+	}
+	top := seen[len(seen)-1]
+	if got[0] != top || largest != top.end-1 {
+		w.Failf(id+"largest-range-wrong", "%+v (%s): first range %v largest %d, the highest range given is %v; frame %x", x, sh.name, got[0], largest, top, frame)
+		return
+	}
+	// every further range: below the previous one and inside one range of the input
+	j := len(seen) - 1
+	for i := 1; i < len(got); i++ {
+		r := got[i]
+		if r.start >= r.end || r.end >= got[i-1].start {
+			w.Failf(id+"does-not-parse-back", "%+v (%s): parsed range %d = %v is empty or not below the previous one %v; frame %x", x, sh.name, i, r, got[i-1], frame)
+			return
+		}
+		for j >= 0 && seen[j].start >= r.end {
+			j--
+		}
+		if j < 0 || r.start < seen[j].start || r.end > seen[j].end {
+			w.Failf(id+"acknowledges-number-not-in-set", "%+v (%s): parsed range %d = %v is not inside any range of the set given to the writer; frame %x", x, sh.name, i, r, frame)
+			return
+		}
+	}
+	// the debug parser (qlog, test helpers): same frame, ranges ascending, same length
+	g, dn := parseDebugFrame(frame)
+	ga, isAck := g.(debugFrameAck)
+	okDebug := isAck && dn == len(frame) && ga.ackDelay == delay && ga.ecn == ecn && len(ga.ranges) == len(got)
+	for i := 0; okDebug && i < len(got); i++ {
+		okDebug = ga.ranges[i] == got[len(got)-1-i]
+	}
+	if !okDebug {
+		w.Failf(id+"debug-parser-differs", "%+v (%s): wrote %d bytes %x; parseDebugFrame consumed %d and gave %v, consumeAckFrame gave (high to low) %v", x, sh.name, len(frame), frame, dn, g, got)
+		return
+	}
+	w.Nontrivial()
+	switch {
+	case len(got) == len(seen):
+		w.Outcome("ack frame carries all ranges")
+	case x.Avail < 0:
+		w.Outcome("ack frame with ample room limited to the newest ranges")
+	default:
+		w.Outcome("ack frame shortened to fit")
+	}
+	if len(got)-1 >= 63 {
+		w.Outcome("ack frame with 63 or more additional ranges")
+	}
+}
+
 // ---- arbitrary bytes
 
 type c28B struct {
@@ -545,6 +743,9 @@ func TestVerif_C28(t *testing.T) {
 		c.Rule(fmt.Sprintf("part bytes: every byte string of length <= %d into parseDebugFrame, unmarshalTransportParams, parseLongHeaderPacket (with and without keys), skipLongHeaderPacket, parse1RTTPacket, dstConnIDForDatagram, parseVersionNegotiation, parseGenericLongHeaderPacket, getPacketType, as slices with cap==len (a read past the end panics): no panic, nothing consumed beyond the input.", vx.Pick(c, 2, 3)))
 		c.Assume("frame parsers are only called with at least the type byte present (Conn.handleFrames dispatches on payload[0]); the writer is only asked to emit frames RFC 9000 allows")
 		vx.Enumerate(c, "frames", vx.Opts{}, func(yield func(c28F) bool) { c28GenFrames(c, yield) }, c28CheckFrame)
+		c.Rule(fmt.Sprintf("part ackranges: packetWriter.appendAckFrame on range sets of N disjoint ranges, N in %s, x 5 shapes (per-range gap/length fields all 0; all 1; 2-byte gaps; 2-byte lengths; mixed 1/2/4-byte fields; largest acknowledged and ack delay from 1 to 4-byte varints) x ECN counts {none%s, large} x remaining packet space {every value 0..min(length of the complete RFC 9000 encoding + 2, %s), the untouched 1-RTT packet of a 1200-byte datagram (%d bytes)}. The writer reserves one byte for the ACK Range Count, so the family contains 62/63/64/65 additional ranges with room for all of them (and the counts where a 2-byte count or a wrapped byte counter would appear). An emitted frame must fit the space; consumeAckFrame must consume exactly the bytes written and report the written delay and ECN counts, the highest range of the set exactly, and below it only strictly descending non-empty ranges each inside a range of the set (older ranges may be dropped); parseDebugFrame must consume the same bytes and report the same ranges ascending; a refused frame leaves packet and sent record untouched. Non-trivial = frame emitted and parsed back.",
+			vx.Pick(c, "{1, 2, 3, 8, 32, 61..67, 100, 127..130, 200, 255..258, 300, 319..321}", "1..330"), vx.Pick(c, "", ", small"), vx.Pick(c, "300", "the packet"), c28AckRoom()))
+		vx.Enumerate(c, "ackranges", vx.Opts{}, func(yield func(c28AckN) bool) { c28GenAckN(c, yield) }, c28CheckAckN)
 		vx.Enumerate(c, "bytes", vx.Opts{NoSample: true}, func(yield func(c28B) bool) {
 			if !yield(c28B{P: nil, Ext: true}) {
 				return
